@@ -11,6 +11,16 @@ def step (u : Unit) (line : String) : Unit × String :=
     (match run ⟨i.toNat?.getD 1, t.toNat?.getD 1⟩ delays with
     | .alive n _ => "alive pings=" ++ toString n
     | .closed _ n _ => "closed pings=" ++ toString n)
+  -- what Close of the transport returns is no event of the keepalive model
+  | ["runce", i, t, ds] =>
+    let delays : List (Option Nat) := (ds.splitOn ",").map fun s => if s = "x" then none else s.toNat?
+    (match run ⟨i.toNat?.getD 1, t.toNat?.getD 1⟩ delays with
+    | .alive n _ => "alive pings=" ++ toString n
+    | .closed _ n _ => "closed pings=" ++ toString n)
+  | ["apptraffic", _] =>
+    (match run ⟨100, 160⟩ (List.replicate 8 (some 0)) with
+    | .alive _ _ => "alive"
+    | .closed _ _ _ => "closed")
   | ["announce", a, b] => "announced " ++ toString (announced (a.toNat?.getD 0) (b.toNat?.getD 0))
   | ["echo"] => if [1, 3, 77, 4294967295].all (fun i => pongFor i == i) then "echo ok" else "echo missing"
   -- application traffic is no event of the keepalive model: a peer that answers every ping at once is never dropped
